@@ -24,39 +24,39 @@ SITES = [
     (P + "codegen/ast.rs", "once", "VALID_PRQL_IDENT", "once", "CRegexPrqlIdent", "", ""),
     (P + "debug/log.rs", "clock", "log_start:SystemTime", "nooutput", "", "", "timestamp stored in the debug log only"),
     (P + "debug/log.rs", "lock", "CURRENT_LOG", "lock", "g_log / g_poisoned", "F10h-debug-log-restart-poisons-lock", "log slot of Model/Globals.v"),
-    (P + "debug/render_html.rs", "hash-iter", "write_decl:names.iter", "nooutput", "", "", "HTML rendering of the debug log"),
-    (P + "debug/render_html.rs", "hash-iter", "write_repr_decl:names.iter", "nooutput", "", "", "HTML rendering of the debug log"),
+    (P + "debug/render_html.rs", "hash-iter", "write_decl:names.iter +sorted", "nooutput", "", "", "HTML rendering of the debug log"),
+    (P + "debug/render_html.rs", "hash-iter", "write_repr_decl:names.iter +sorted", "nooutput", "", "", "HTML rendering of the debug log"),
     (P + "debug/render_html.rs", "hash-iter", "write_repr_prql:source_ids.iter", "nooutput", "", "", "HTML rendering of the debug log"),
     (P + "debug/render_html.rs", "hash-iter", "write_repr_prql:sources.for", "nooutput", "", "", "HTML rendering of the debug log"),
     (P + "ir/pl/fold.rs", "hash-iter", "fold_func_call:named_args.into_iter", "refuted:first_error", "first_error_refuted", "F10e-named-args-first-error", "values re-collected into a map (perm_invariant_map_values); the first failing argument in iteration order is reported"),
-    (P + "ir/pl/lineage.rs", "hash-iter", "sorted_set:value.iter", "inv:sort", "perm_invariant_sort", "", ".sorted() before serialising"),
-    (P + "lib.rs", "env", "compiler_version:var", "env", "SReadEnv", "", "PRQL_VERSION_OVERRIDE is read on every call; constant during a run (assumption)"),
+    (P + "ir/pl/lineage.rs", "hash-iter", "sorted_set:value.iter +sorted", "inv:sort", "perm_invariant_sort", "", ".sorted() before serialising"),
+    (P + "lib.rs", "env", "compiler_version:var(PRQL_VERSION_OVERRIDE)", "env", "SReadEnv", "", "PRQL_VERSION_OVERRIDE is read on every call; constant during a run (assumption)"),
     (P + "lib.rs", "hash-iter", "insert:source_ids.keys", "inv:max", "perm_invariant_max", "", ".keys().max()"),
     (P + "lib.rs", "once", "COMPILER_VERSION", "once", "CVersion", "", ""),
-    (P + "parser.rs", "hash-iter", "linearize_tree:sources.for", "inv:sort_by_key", "perm_invariant_sort_by_key", "", "sorted by module path afterwards (module paths of distinct files assumed distinct)"),
-    (P + "parser.rs", "hash-iter", "linearize_tree:sources.keys", "refuted:find_first", "find_first_refuted", "F10g-two-uppercase-root-candidates", ".keys().next() only when len == 1; .keys().find(starts_with_uppercase) picks the root: order-dependent with two candidates; the error listing is .sorted()"),
+    (P + "parser.rs", "hash-iter", "linearize_tree:sources.for +sorted", "inv:sort_by_key", "perm_invariant_sort_by_key", "", "sorted by module path afterwards (module paths of distinct files assumed distinct)"),
+    (P + "parser.rs", "hash-iter", "linearize_tree:sources.keys +sorted", "refuted:find_first", "find_first_refuted", "F10g-two-uppercase-root-candidates", ".keys().next() only when len == 1; .keys().find(starts_with_uppercase) picks the root: order-dependent with two candidates; the error listing is .sorted()"),
     (P + "parser.rs", "hash-iter", "parse:source_ids.iter", "inv:lookup", "perm_invariant_lookup", "", "reverse map path -> id re-collected; paths are distinct"),
     (P + "semantic/ast_expand.rs", "hash-iter", "expand_expr:named_args.into_iter", "refuted:first_error", "first_error_refuted", "F10e-named-args-first-error", "try_collect: the first failing named argument in iteration order is reported"),
     (P + "semantic/ast_expand.rs", "hash-iter", "expand_func_params:value.into_iter", "nothash", "", "", "`value` is a Vec<FuncParam> here"),
     (P + "semantic/ast_expand.rs", "hash-iter", "expand_stmts:value.into_iter", "nothash", "", "", "`value` is a Vec<Stmt> here"),
     (P + "semantic/ast_expand.rs", "hash-iter", "restrict_expr_kind:named_args.into_iter", "inv:map_values", "perm_invariant_map_values", "", "infallible map re-collected into a map"),
     (P + "semantic/ast_expand.rs", "hash-iter", "restrict_func_params:value.into_iter", "nothash", "", "", "`value` is a Vec<FuncParam> here"),
-    (P + "semantic/ast_expand.rs", "hash-iter", "restrict_module:names.into_iter", "inv:sort_by_key", "perm_invariant_sort_by_key", "", ".sorted_by_key(name)"),
+    (P + "semantic/ast_expand.rs", "hash-iter", "restrict_module:names.into_iter +sorted", "inv:sort_by_key", "perm_invariant_sort_by_key", "", ".sorted_by_key(name)"),
     (P + "semantic/lowering.rs", "hash-iter", "extract_from_module:names.for", "inv:lookup", "perm_invariant_lookup", "", "the Vec built here is turned back into a HashMap by toposort_tables"),
     (P + "semantic/lowering.rs", "hash-iter", "lower_to_ir:names.keys", "inv:any", "perm_invariant_any", "", ".filter(..).is_empty()"),
     (P + "semantic/lowering.rs", "hash-iter", "lower_to_ir:tables.for", "nothash", "", "", "`tables` is the Vec returned by toposort_tables"),
     (P + "semantic/lowering.rs", "hash-iter", "redirect_mappings:node_mapping.values_mut", "inv:map_values", "perm_invariant_map_values", "", "each value updated on its own"),
-    (P + "semantic/lowering.rs", "hash-iter", "toposort_tables:tables.for", "inv:sort_by_key", "perm_invariant_sort_by_key", "", "dependencies.sort_by(ident) before the toposort ('to make sure lowering is stable')"),
+    (P + "semantic/lowering.rs", "hash-iter", "toposort_tables:tables.for +sorted", "inv:sort_by_key", "perm_invariant_sort_by_key", "", "dependencies.sort_by(ident) before the toposort ('to make sure lowering is stable')"),
     (P + "semantic/module.rs", "hash-iter", "as_decls:names.for", "refuted:sort_by_key_dup", "sort_by_key_dup_refuted", "F10i-available-columns-hint-order", "the only consumer (resolver/names.rs collect_columns_in_module) does a stable sort by Decl::order, which is shared by several declarations: their iteration order survives into the `available columns` hint"),
     (P + "semantic/module.rs", "hash-iter", "from_exprs:exprs.into_iter", "inv:map_values", "perm_invariant_map_values", "", "re-collected into a map"),
     (P + "semantic/module.rs", "hash-iter", "into_exprs:names.into_iter", "inv:map_values", "perm_invariant_map_values", "", "re-collected into a map"),
     (P + "semantic/reporting.rs", "hash-iter", "label_module:names.iter", "nooutput", "", "", "lineage / debug reporting"),
-    (P + "semantic/resolver/expr.rs", "hash-iter", "construct_tuple_from_module:names.iter", "inv:sort_by_key", "perm_invariant_sort_by_key", "", ".sorted_by_key(order); distinct orders assumed"),
+    (P + "semantic/resolver/expr.rs", "hash-iter", "construct_tuple_from_module:names.iter +sorted", "inv:sort_by_key", "perm_invariant_sort_by_key", "", ".sorted_by_key(order); distinct orders assumed"),
     (P + "semantic/resolver/functions.rs", "hash-iter", "apply_args_to_closure:named_args.into_iter", "refuted:head_of", "head_of_refuted", "F10-unknown-named-arg-choice", "named_args.into_iter().next() names one of the leftover arguments"),
     (P + "semantic/resolver/functions.rs", "hash-iter", "resolve_function_args:other.for", "nothash", "", "", "`other` is a Vec here"),
-    (P + "semantic/resolver/names.rs", "hash-iter", "ambiguous_error:idents.for", "inv:sort", "perm_invariant_sort", "", "chunks.sort() before joining"),
-    (P + "semantic/resolver/names.rs", "hash-iter", "ambiguous_error:idents.iter", "inv:all", "perm_invariant_all", "", ".all(..)"),
-    (P + "sql/gen_projection.rs", "hash-iter", "as_col_names:cids.iter", "inv:sort_by_key", "perm_invariant_sort_by_key", "", ".sorted_by_key(cid)"),
+    (P + "semantic/resolver/names.rs", "hash-iter", "ambiguous_error:idents.for +sorted", "inv:sort", "perm_invariant_sort", "", "chunks.sort() before joining"),
+    (P + "semantic/resolver/names.rs", "hash-iter", "ambiguous_error:idents.iter +sorted", "inv:all", "perm_invariant_all", "", ".all(..)"),
+    (P + "sql/gen_projection.rs", "hash-iter", "as_col_names:cids.iter +sorted", "inv:sort_by_key", "perm_invariant_sort_by_key", "", ".sorted_by_key(cid)"),
     (P + "sql/gen_projection.rs", "hash-iter", "translate_exclude:excluded.into_iter", "nothash", "", "", "`excluded` was shadowed by the sorted Vec of as_col_names"),
     (P + "sql/gen_projection.rs", "hash-iter", "try_into_exprs:cids.for", "nothash", "", "", "`cids` is a Vec<CId> here"),
     (P + "sql/keywords.rs", "once", "EMPTY", "once", "CKwEmpty", "", ""),
@@ -67,7 +67,7 @@ SITES = [
     (P + "sql/pq/postprocess.rs", "hash-iter", "alias_last_sorting:cid_redirects.iter", "inv:find_unique", "perm_invariant_find_unique", "", "first redirect whose target is the column; redirect targets assumed distinct"),
     (P + "sql/pq/postprocess.rs", "hash-iter", "alias_last_sorting:column_decls.values", "refuted:lookup_last", "lookup_last_refuted", "F10d-sort-alias-choice", "column -> alias map collected with repeated keys: the last alias in iteration order wins"),
     (P + "sql/pq/postprocess.rs", "hash-iter", "alias_last_sorting:relation_instances.iter", "inv:lookup", "perm_invariant_lookup", "", "re-collected into a map keyed by RIId"),
-    (P + "sql/pq/postprocess.rs", "hash-iter", "assign_names:table_decls.values_mut", "inv:sort_by_key", "perm_invariant_sort_by_key", "", ".sorted_by_key(id)"),
+    (P + "sql/pq/postprocess.rs", "hash-iter", "assign_names:table_decls.values_mut +sorted", "inv:sort_by_key", "perm_invariant_sort_by_key", "", ".sorted_by_key(id)"),
     (P + "sql/pq/postprocess.rs", "hash-iter", "fold_sql_query:relation_instances.iter_mut", "refuted:find_first", "find_first_refuted", "F10f-cte-instance-choice", ".find(source == cte.tid) with two instances of one CTE"),
     (P + "sql/pq/preprocess.rs", "hash-iter", "vecs_contain_same_elements:a.iter", "nothash", "", "", "slice iteration collected into a set; sets compared with =="),
     (P + "sql/pq/preprocess.rs", "hash-iter", "vecs_contain_same_elements:b.iter", "nothash", "", "", "slice iteration collected into a set; sets compared with =="),
